@@ -80,6 +80,8 @@ class PCAIncrement(taps.Monitor):
             return None
         ns = args[2] if len(args) > 2 else kw.get("n_samples")
         chunk = np.array(data, dtype=np.float64, copy=True)
+        if chunk.ndim != 2 or chunk.shape[1] != m.n_features or not np.isfinite(chunk).all():
+            return None          # (not a chunk of this model's data: refused by the model - the workload checks that it then is as it was)
         if ns is not None and isinstance(data, np.ndarray) and ns != len(chunk):
             PDATA.pop(id(m), None)
             return None
@@ -202,6 +204,13 @@ def run_pca(ctx, rng, comp, d, centre, kind):
     sibling = PCAVectorModel.init_from_components(m._components, m._eigenvalues, m._mean, m.n_samples, centre)
     sib_state = (sibling._components.copy(), sibling._eigenvalues.copy(), sibling._mean.copy(), sibling.n_samples)
     for c in chunks[1:]:
+        if rng.random() < 0.15:
+            # a chunk that cannot be absorbed (samples of another length) is refused - and the model goes on as if nothing had happened
+            try:
+                m.increment(rng.normal(size=(int(rng.integers(1, 4)), d + 1)))
+                ctx.fail("pca_increment_accepted_samples_of_the_wrong_length", cls="PCAVectorModel")
+            except Exception:
+                ctx.bump("impossible_increments_refused")
         if m.n_components > 1 and rng.random() < 0.35:
             # lowering the active count is documented as non-destructive: later increments see the whole model
             m.n_active_components = int(rng.integers(1, m.n_components)) if rng.random() < 0.6 else float(rng.uniform(0.3, 0.9)) * m._total_variance_ratio()
